@@ -1574,6 +1574,26 @@ def run(ctx):
             if bad:
                 ctx.disagreement("pcp process-wide calls", "pcp_server.c calls %s: process-wide state the model of several "
                                  "receivers in one process does not cover" % bad, dict(calls=bad))
+        # ---- what the client threads of a forward copy share: pcp_client.c against Pcp/ClientStatics.lean (the premise of
+        # the product automaton Pcp/FanOut.lean: a session depends on its own target only)
+        cso = pcp.static_objects(REPO, ctx.scratch, "pcp_client.c")
+        cms = pcp.fields(ctx.model("pcp", "cstatics\n")[0])
+        if cso is None:
+            ctx.disagreement("pcp client statics", "pcp_client.c does not compile on its own", {})
+        else:
+            cdefs, ccalls = cso
+            cwant = sorted(x for x in cms["defs"].split(",") if x != "-")
+            dist["client_static_objects"] = cdefs
+            dist["client_process_wide_calls"] = [c for c in ccalls if c in cms["expandonly"].split(",")]
+            if cdefs != cwant:
+                ctx.disagreement("pcp client statics", "pcp_client.c defines the objects of static storage duration %s; the "
+                                 "model of a forward copy to several targets (Pcp/FanOut.lean, Pcp/ClientStatics.lean) accounts "
+                                 "for %s: state that outlives a call is shared by the client threads of all targets" %
+                                 (cdefs, cwant), dict(static_objects=cdefs, model=cwant))
+            bad = [c for c in ccalls if c in cms["forbidden"].split(",")]
+            if bad:
+                ctx.disagreement("pcp client process-wide calls", "pcp_client.c calls %s: process-wide state the model of "
+                                 "several client threads in one process does not cover" % bad, dict(calls=bad))
         if os.environ.get("VERIF_C11_E2E", "1") != "0":
             run_e2e(ctx, cov, dist)
     cov["distinct_nontrivial"] = len(distinct)
